@@ -73,6 +73,7 @@ var typeList = []tinfo{
 	{"named8", 'i', true, 8}, {"namedu16", 'i', false, 16},
 	{"float64", 'f', true, 64}, {"float32", 'f', true, 32},
 	{"string", 's', false, 0}, {"util", 'u', false, 0},
+	{"complex128", 'c', true, 64}, {"complex64", 'c', true, 32}, // Sum/Product, direct oracle only
 }
 
 type named8 int8
@@ -304,6 +305,12 @@ func runCase(c *core.Ctx, cs Case, t tinfo, emit bool, val func(int64) *big.Int,
 					got = show[0](r)
 				}
 			}
+			if len(in) > 40 {
+				in = append(in[:40:40], fmt.Sprintf("... (%d arguments, see the replay case)", len(tup)))
+			}
+			if !emit && kind == "" { // the result is not expressed as a Z (float/complex Sum, Product): what carries it
+				got = "(result above)"
+			}
 			c.Fail(what, fmt.Sprintf("%s[%s](%s) = %s", cs.Fn, cs.Ty, strings.Join(in, ", "), got))
 			if len(failing) < 3 {
 				failing = append(failing, append([]int64{}, tup...))
@@ -383,6 +390,10 @@ func exec(c *core.Ctx, cs Case) {
 		execFloat[float64](c, cs, t)
 	case "float32":
 		execFloat[float32](c, cs, t)
+	case "complex128":
+		execComplex[complex128](c, cs, t)
+	case "complex64":
+		execComplex[complex64](c, cs, t)
 	case "string":
 		execString(c, cs, t)
 	case "util":
@@ -564,14 +575,19 @@ func intOracle(fn string, t tinfo, A []*big.Int, r *big.Int) (string, bool) {
 		return "", want.Cmp(s) != 0 // wrapped
 	case "Product":
 		p := big.NewInt(1)
+		reduced := false
 		for _, x := range A {
 			p.Mul(p, x)
+			if p.BitLen() > 4096 { // (a mod m)*b = a*b (mod m): keeps the exact product small on long lists
+				p = t.wrap(p)
+				reduced = true
+			}
 		}
 		want := t.wrap(p)
 		if r.Cmp(want) != 0 {
 			return "Product result differs, want " + want.String(), false
 		}
-		return "", want.Cmp(p) != 0
+		return "", reduced || want.Cmp(p) != 0
 	case "Abs":
 		want := new(big.Int).Abs(A[0])
 		_, max := t.minMax()
@@ -664,7 +680,8 @@ func execFloat[T typ.Float](c *core.Ctx, cs Case, t tinfo) {
 					want *= x
 				}
 			}
-			if raw != want && !(raw != raw && want != want) {
+			// bit for bit (sign of zero included); a NaN result (Inf-Inf, 0*Inf) must be a NaN
+			if math.Float64bits(float64(raw)) != math.Float64bits(float64(want)) && !(raw != raw && want != want) {
 				return fmt.Sprintf("%s result %v differs from the left-to-right loop %v", cs.Fn, raw, want), false
 			}
 			return "", len(a) >= 2
@@ -685,6 +702,72 @@ func execFloat[T typ.Float](c *core.Ctx, cs Case, t tinfo) {
 	}
 	emit := cs.Fn != "Sum" && cs.Fn != "Product"
 	runCase(c, cs, t, emit, val, call, oracle, func(code *big.Int) string {
+		m := code.Int64()
+		if m < 0 {
+			return fmt.Sprintf("%g", -math.Float64frombits(uint64(-m)))
+		}
+		return fmt.Sprintf("%g", math.Float64frombits(uint64(m)))
+	})
+}
+
+// ---------------------------------------------------------------- complex (direct oracle only)
+
+// a tuple is re0, im0, re1, im1, ... as float64 bits
+func execComplex[T typ.Complex](c *core.Ctx, cs Case, t tinfo) {
+	part := func(b int64) float64 {
+		f := math.Float64frombits(uint64(b))
+		if f != f {
+			f = 0
+		}
+		if t.w == 32 {
+			f = float64(float32(f))
+		}
+		return f
+	}
+	conv := func(tup []int64) []T {
+		a := make([]T, len(tup)/2)
+		for i := range a {
+			a[i] = T(complex(part(tup[2*i]), part(tup[2*i+1])))
+		}
+		return a
+	}
+	var raw T
+	call := func(tup []int64) *big.Int {
+		a := conv(tup)
+		switch cs.Fn {
+		case "Sum":
+			raw = typ.Sum(a...)
+		case "Product":
+			raw = typ.Product(a...)
+		default:
+			panic("c20: unknown complex function " + cs.Fn)
+		}
+		return big.NewInt(0)
+	}
+	same := func(x, y float64) bool { return math.Float64bits(x) == math.Float64bits(y) || (x != x && y != y) }
+	oracle := func(tup []int64, kind string, r *big.Int) (string, bool) {
+		if kind != "" {
+			return "unexpected panic " + kind, false
+		}
+		a := conv(tup)
+		var want T
+		if cs.Fn == "Product" {
+			want = 1
+		}
+		for _, x := range a {
+			if cs.Fn == "Sum" {
+				want += x
+			} else {
+				want *= x
+			}
+		}
+		g, w := complex128(raw), complex128(want)
+		if !same(real(g), real(w)) || !same(imag(g), imag(w)) {
+			return fmt.Sprintf("%s result %v differs from the left-to-right loop %v", cs.Fn, raw, want), false
+		}
+		return "", len(a) >= 2
+	}
+	runCase(c, cs, t, false, func(b int64) *big.Int { return encFloat(part(b)) }, call, oracle, func(code *big.Int) string {
 		m := code.Int64()
 		if m < 0 {
 			return fmt.Sprintf("%g", -math.Float64frombits(uint64(-m)))
@@ -1107,6 +1190,289 @@ func singles(vals []int64) [][]int64 {
 	return ts
 }
 
+// ---------------------------------------------------------------- long argument lists
+
+// argument counts: 0..20, then every power of two up to 4096 with its neighbours
+func longLens(big bool) []int {
+	var ls []int
+	for n := 0; n <= 20; n++ {
+		ls = append(ls, n)
+	}
+	for p := 32; p <= 1024; p *= 2 {
+		ls = append(ls, p-1, p, p+1)
+	}
+	ls = append(ls, 24, 40, 100, 1000)
+	if big {
+		ls = append(ls, 2047, 2048, 2049, 4095, 4096, 4097)
+	}
+	sort.Ints(ls)
+	return ls
+}
+
+func f64bits(f float64) int64 { return int64(math.Float64bits(f)) }
+
+// a float with a random 52 bit mantissa and the given binary exponent and sign
+func floatWith(r *core.Rand, exp int, neg bool) float64 {
+	f := math.Ldexp(math.Float64frombits(0x3FF0000000000000|r.Uint64()&(1<<52-1)), exp)
+	if neg {
+		f = -f
+	}
+	return f
+}
+
+// Factors whose running left-to-right product stays finite and normal while the
+// product of any run of consecutive factors over- or underflows: the binary
+// exponent of the running product zigzags between -lim and +lim in large steps.
+func zigzagFactors(r *core.Rand, n int, w int) []int64 {
+	lim, lo, hi := 900, 90, 220
+	if w == 32 {
+		lim, lo, hi = 110, 11, 27
+	}
+	out := make([]int64, n)
+	run, dir := 0.0, 1 // run: log2 of the magnitude of the running product (mantissas included)
+	if r.Bool() {
+		dir = -1
+	}
+	for i := range out {
+		step := r.Range(lo, hi)
+		if next := run + float64(dir*step); next > float64(lim) || next < -float64(lim) {
+			dir = -dir
+		}
+		f := floatWith(r, dir*step, r.Chance(20))
+		if w == 32 {
+			f = float64(float32(f))
+		}
+		run += math.Log2(math.Abs(f))
+		out[i] = f64bits(f)
+	}
+	return out
+}
+
+// Terms of very different magnitude with cancellation: any re-association or
+// compensated summation changes the rounded result.
+func cancelTerms(r *core.Rand, n int, w int) []int64 {
+	span := 60
+	if w == 32 {
+		span = 30
+	}
+	out := make([]int64, n)
+	for i := range out {
+		if i > 0 && r.Chance(25) {
+			out[i] = f64bits(-math.Float64frombits(uint64(out[r.Intn(i)])))
+			continue
+		}
+		out[i] = f64bits(floatWith(r, r.Range(-span/2, span), r.Bool()))
+	}
+	return out
+}
+
+func nearOne(r *core.Rand, n int) []int64 {
+	out := make([]int64, n)
+	for i := range out {
+		out[i] = f64bits(floatWith(r, r.Range(-1, 0), r.Chance(10)))
+	}
+	return out
+}
+
+// all arguments equal to base except one needle at position pos
+func needleList(n int, base, needle int64, pos int) []int64 {
+	out := make([]int64, n)
+	for i := range out {
+		out[i] = base
+	}
+	if n > 0 {
+		out[pos%n] = needle
+	}
+	return out
+}
+
+func needlePos(r *core.Rand, n int) int {
+	if n == 0 {
+		return 0
+	}
+	switch r.Intn(6) {
+	case 0:
+		return 0
+	case 1:
+		return n - 1
+	case 2:
+		return (n - 2 + n) % n
+	case 3:
+		return n / 2
+	}
+	return r.Intn(n)
+}
+
+// Long argument lists for the variadic functions, for every type class. All of
+// it goes to the direct oracle (for float and complex Sum/Product: bit for bit
+// equality with the left-to-right loop); a small sample also goes to the model.
+func longVariadic(c *core.Ctx) {
+	r := c.Rng
+	for _, t := range typeList {
+		t := t
+		if t.kind == 'u' {
+			continue
+		}
+		alias := false
+		switch t.name {
+		case "int", "uint", "uintptr", "named8", "namedu16":
+			alias = true
+		}
+		var bnd []int64
+		if t.kind == 'i' {
+			bnd = boundary(t)
+		}
+		// one value of the type
+		gen := func() int64 {
+			switch t.kind {
+			case 'i':
+				return randInt(r, t, bnd)
+			case 'f':
+				return randFloat(r)
+			}
+			return int64(r.Intn(len(strTable)))
+		}
+		// an ordered pair lo < hi of values (bits) for the needle lists
+		pair := func() (int64, int64) {
+			for {
+				a, b := gen(), gen()
+				switch valueOf(t, a).Cmp(valueOf(t, b)) {
+				case -1:
+					return a, b
+				case 1:
+					return b, a
+				}
+			}
+		}
+		// profile k of function fn: the list of length n
+		profiles := func(fn string) []func(n int) []int64 {
+			random := func(n int) []int64 { return tuplesOf(1, fixed(n), gen)[0] }
+			if t.kind == 'c' {
+				return []func(int) []int64{
+					func(n int) []int64 { return nearOne(r, 2*n) },
+					func(n int) []int64 { return cancelTerms(r, 2*n, t.w) },
+					func(n int) []int64 { // zigzag magnitudes on the real axis, small imaginary parts
+						z := zigzagFactors(r, n, t.w)
+						out := make([]int64, 0, 2*n)
+						for _, b := range z {
+							im := 0.0
+							if r.Chance(30) {
+								im = math.Float64frombits(uint64(b)) * float64(r.Range(-3, 3)) / 8
+							}
+							out = append(out, b, f64bits(im))
+						}
+						return out
+					},
+				}
+			}
+			switch fn {
+			case "Min", "Max":
+				return []func(int) []int64{random,
+					func(n int) []int64 { // the unique extreme at a chosen position, everything else equal
+						lo, hi := pair()
+						if fn == "Min" {
+							return needleList(n, hi, lo, needlePos(r, n))
+						}
+						return needleList(n, lo, hi, needlePos(r, n))
+					},
+					func(n int) []int64 { // few distinct values, many ties
+						a, b := pair()
+						vals := []int64{a, b, gen()}
+						return tuplesOf(1, fixed(n), func() int64 { return vals[r.Intn(3)] })[0]
+					}}
+			case "Coal":
+				return []func(int) []int64{
+					func(n int) []int64 { // zeros, the first non-zero value at a chosen position, then anything
+						out := make([]int64, n)
+						if n == 0 || r.Chance(10) {
+							return out
+						}
+						p := needlePos(r, n)
+						for i := p; i < n; i++ {
+							for out[i] = gen(); valueOf(t, out[i]).Sign() == 0 && i == p; out[i] = gen() {
+							}
+						}
+						return out
+					}}
+			case "Sum":
+				if t.kind == 'f' {
+					return []func(int) []int64{random,
+						func(n int) []int64 { return cancelTerms(r, n, t.w) },
+						func(n int) []int64 { return nearOne(r, n) }}
+				}
+				return []func(int) []int64{random,
+					func(n int) []int64 { // extremes: wraps at every step
+						_, max := t.minMax()
+						min, _ := t.minMax()
+						vals := []int64{bitsOf(max), bitsOf(min), canon(t, 1), canon(t, -1), bitsOf(max)}
+						return tuplesOf(1, fixed(n), func() int64 { return vals[r.Intn(len(vals))] })[0]
+					}}
+			case "Product":
+				if t.kind == 'f' {
+					return []func(int) []int64{
+						func(n int) []int64 { return zigzagFactors(r, n, t.w) },
+						func(n int) []int64 { return nearOne(r, n) },
+						func(n int) []int64 { // mostly ones, a few inexact factors far apart
+							vals := []float64{0.1, 0.3, 0.7, 1.1, 3, -0.9, 1e-3, 1e3}
+							return tuplesOf(1, fixed(n), func() int64 {
+								if r.Chance(75) {
+									return f64bits(1)
+								}
+								return f64bits(vals[r.Intn(len(vals))])
+							})[0]
+						},
+						random}
+				}
+				return []func(int) []int64{random,
+					func(n int) []int64 { // odd factors: the product never collapses to 0 modulo 2^w
+						return tuplesOf(1, fixed(n), func() int64 { return canon(t, int64(2*r.Range(-6, 6)+1)) })[0]
+					}}
+			}
+			return nil
+		}
+		fns := []string{"Min", "Max", "Sum", "Product", "Coal"}
+		if t.kind == 's' {
+			fns = []string{"Min", "Max", "Coal"}
+		}
+		if t.kind == 'c' {
+			fns = []string{"Sum", "Product"}
+		}
+		for _, fn := range fns {
+			ps := profiles(fn)
+			for k, prof := range ps {
+				lens := longLens(k == 0 && !alias)
+				if alias { // same code instance class as another listed type: every third length
+					var sub []int
+					for i, n := range lens {
+						if i%3 == k%3 {
+							sub = append(sub, n)
+						}
+					}
+					lens = sub
+				}
+				ts := make([][]int64, len(lens))
+				for i, n := range lens {
+					ts[i] = prof(n)
+				}
+				exec(c, Case{Fn: fn, Ty: t.name, Tuples: ts, Oracle: true})
+			}
+			// model sample: a few lengths around the first thresholds, one profile
+			if t.kind != 'c' && !(t.kind == 'f' && (fn == "Sum" || fn == "Product")) && !alias {
+				prof := ps[r.Intn(len(ps))]
+				var ts [][]int64
+				for _, n := range []int{16, 17, 33, 65} {
+					ts = append(ts, prof(n))
+				}
+				exec(c, Case{Fn: fn, Ty: t.name, Tuples: ts})
+			}
+		}
+	}
+	c.Note("long argument lists (direct oracle; float/complex Sum and Product bit for bit against the left-to-right loop): Min, Max, Sum, Product, Coal " +
+		"with 0..20, 24, 31..33, 40, 63..65, 100, 127..129, 255..257, 511..513, 1000, 1023..1025, 2047..2049, 4095..4097 arguments, for every integer type, float32/64, " +
+		"complex64/128 (Sum, Product), string (Min, Max, Coal); profiles: random, extreme at a chosen position, many ties, wrapping extremes, odd factors, " +
+		"zigzag magnitudes (running product finite, any block product over/underflows), cancelling sums, factors near one; lists of 16, 17, 33, 65 arguments also go to the model")
+}
+
 const block = 4096 // calls per exhaustive case
 
 // every value of an 8 or 16 bit type for the one-argument functions. Every block goes to the direct
@@ -1296,6 +1662,8 @@ func run(c *core.Ctx) {
 			sampled(c, t, func() int64 { return int64(r.Intn(len(strTable))) }, n)
 		}
 	}
+	// 2b. long argument lists of the variadic functions
+	longVariadic(c)
 	// 3. util.go
 	small := func() int64 {
 		if r.Chance(40) {
